@@ -59,13 +59,41 @@ static void render(const Tree &t, int ws, int istyle, std::string &out, unsigned
     out += ")";
 }
 
+// expressions that begin 2 GiB and more into the input (address space only: the input is an untouched MAP_NORESERVE mapping of zero
+// octets with the expression written near its end): positions that pass through a 32-bit or signed variable show here
+#include <sys/mman.h>
+static void giant_offsets() {
+    const size_t SZ = ((size_t)1 << 32) + 65536;
+    char *mem = (char *)mmap(nullptr, SZ, PROT_READ | PROT_WRITE, MAP_PRIVATE | MAP_ANONYMOUS | MAP_NORESERVE, -1, 0);
+    if (mem == MAP_FAILED) { vp::stats().notes["giant_offsets"] = "mmap of 4 GiB + 64 KiB failed: skipped"; return; }
+    struct T { const char *text; uint64_t value; bool list; };
+    for (size_t off : {((size_t)1 << 31) - 3, ((size_t)1 << 31) + 5, ((size_t)1 << 32) - 2, ((size_t)1 << 32) + 9}) for (T t : {T{"42 ", 42, false}, T{"#xBeeF)", 0xbeef, false}, T{"(7 foo 65536) ", 7, true}}) {
+        std::string rep = vp::fmt("giant %zu %s\n", off, t.text);
+        vp::CaseScope scope([&] { return rep; });
+        size_t len = strlen(t.text);
+        memset(mem + off - 8, ' ', 8); memcpy(mem + off, t.text, len);
+        mem[off - 1] = '9'; mem[off - 2] = '1';                 // digits directly in front of the start index: none of the reader's business
+        vp::count(); vp::nontrivial(vp::mix(off, vp::fnv(std::string(t.text)))); vp::cls("expression-2GiB-and-more-into-the-input");
+        long live0 = c20::ledger().live;
+        struct sx_parse_result res = sx_parse(mem, off + len, off);
+        bool ok = res.status == SXS_SUCCESS && res.node != nullptr;
+        if (ok && !t.list) ok = res.node->type == SXT_INTEGER && res.node->data.u64 == t.value && res.position == off + (t.text[len - 1] == ')' ? len - 1 : len - 1);
+        if (ok && t.list) ok = res.node->type == SXT_PAIR && res.node->data.pair->car->type == SXT_INTEGER && res.node->data.pair->car->data.u64 == 7 && res.position == off + len - 1;
+        std::string got = res.node && res.node->type == SXT_INTEGER ? vp::fmt("integer %llu", (unsigned long long)res.node->data.u64) : "other";
+        if (res.node) sx_destroy(&res.node);
+        if (!ok) vp::fail("giant:parse-from-index", vp::fmt("sx_parse of \"%s\" from index %zu: status %d, %s, position %zu", t.text, off, (int)res.status, got.c_str(), res.position), rep);
+        else if (c20::ledger().live != live0) vp::fail("giant:leak", "allocations outstanding", rep);
+        memset(mem + off - 8, 0, 8 + len);
+    }
+    munmap(mem, SZ);
+}
 static void run() {
     auto &a = vp::args();
     vp::CaseScope scope([] { return ser(g_cur); });
     size_t maxnodes = a.thorough() ? 6 : 5, maxlen = a.thorough() ? 7 : 6;
     vp::stats().rule = vp::fmt("enum: (a) all trees with <= %zu nodes and depth <= 4 over symbols {a,foo,x-1,+}, integers {0,7,255,65536} and empty lists, rendered with 3 whitespace styles x "
                                "decimal / #x lower / #x upper / mixed-case digits; (a') lists of 254..4000 elements, sub-lists late in long parents, nesting depth 50..1000; (b) all strings of length <= %zu over '( ) space a 1 # x F - newline'; every input presented NUL-terminated and "
-                               "length-delimited in an exact-size heap block; oracle = independent reference reader, allocation ledger, ASan", maxnodes, maxlen);
+                               "length-delimited in an exact-size heap block; oracle = independent reference reader, allocation ledger, ASan; sx_parse from indices around 2^31 and 2^32 in a 4 GiB input (address space only)", maxnodes, maxlen);
     vp::stats().exhaustive = true;
     build_trees(maxnodes);
     uint64_t idx = 0;
@@ -115,9 +143,11 @@ static void run() {
     if (a.shard == 0)
         for (const char *s : {"foo{}bar", "1234a", "(1 (a b c) 3)", "#xdeadBEEF", "(#xFF #xff #Xff)", "((((((((a))))))))", "(a . b)", "\"str\"", "(a\x01)", "18446744073709551615", "#xffffffffffffffff", "(%|/_:;.!?$&=*<>~)"})
             run_input(s, false);
+    if (a.shard == 1 % a.nshards) giant_offsets();
 }
 static bool replay(const std::string &text) {
     auto w = vp::split(vp::lines(text).at(0));
+    if (!w.empty() && w[0] == "giant") { giant_offsets(); return vp::stats().failures.empty(); }
     if (w.empty() || w[0] != "sx") return false;
     std::string in;
     if (w.size() >= 2) { auto b = vp::unhex(w[1]); in.assign(b.begin(), b.end()); }
